@@ -66,7 +66,7 @@ VARIANTS = [
 
 for _v in VARIANTS:
     _v["quick"] = _v["tag"] in ("b_ilist_zp_rows_rem", "b_set_zp_swaps_rows", "bd_list_zp_rows_remc", "ru_vine_iset_introws",
-                                "ru_vine_rep_vector_rows_remc", "ru_rep_set_zp_mapc_remc", "ch_rep_set_zp", "ch_vine_ilist_introws", "ch_vine_uset_mapc_remc", "toplex", "lazy_toplex",
+                                "ru_vine_rep_vector_rows_remc", "ru_rep_set_zp_mapc_remc", "ch_rep_set_zp", "ch_vine_ilist_introws", "ch_vine_uset_mapc_remc", "ch_ide_list_z2", "toplex", "lazy_toplex",
                                 "cubical", "landscape")
 
 
